@@ -62,6 +62,10 @@ def gen_poly(rng, n, deg2, raw=False):
         ln = rng.choice([0, 1, 1, 2, 2, 3, 4][: (4 if deg2 else 7)])
         ln = min(ln, maxlen)
         key = [rng.randrange(n) for _ in range(ln)]
+        if raw and rng.random() < 0.2:
+            # long raw keys with heavy repetition (a label three or more times next to others): boolean squashing keeps each
+            # label once, spin squashing keeps the labels of odd multiplicity — the degree of the squashed key decides
+            key = [rng.randrange(min(n, 3)) for _ in range(rng.randint(5, 7))]
         if deg2 and not raw:
             # QUBO/QUSO leaves: keep the squashed key within two labels (a third label would be a KeyError,
             # which the malformed stream covers separately)
